@@ -377,6 +377,8 @@ func run(c *core.Ctx) {
 				checkCell(c, "<"+e+" "+a+"=\"{{.V}}x\">", a, "Reject")
 				checkCell(c, "<"+e+" "+a+"='{{.V}} y'>", a, "Reject")
 				checkCell(c, "<"+e+" "+a+"=\"{{.V}}{{.V}}\">", a, "Reject")
+				checkCell(c, "<"+e+" "+a+"=\"{{if .C}}{{else}}x{{end}}{{.V}}\">", a, "Reject")
+				checkCell(c, "<"+e+" "+a+"=\"{{if .C}}{{.V}}{{else}}x{{end}}y\">", a, "Reject")
 			}
 		}
 	}
